@@ -893,7 +893,7 @@ func retention(ctx *core.Ctx, bin string) {
 
 // Run is the C10 check.
 func Run(ctx *core.Ctx) {
-	ctx.Rule = "one fenced collection with channels c1 (all objects) and c2 (MATCH w0*), a webhook h1 on a scripted local endpoint and 0-2 live fences, all `DETECT inside` over the whole world so that every SET produces exactly one notification carrying the write's unique token; 1-8 concurrent writers, 0-3 PUBLISH publishers, an exact and a pattern subscriber from the start, 0-3 subscribers that subscribe and leave while traffic flows, webhook failure patterns {none, refuse (listener closed 0.3-1.5 s), 5xx x k, refuse then 5xx, hang > 5 s (thorough)}; phases end with markers (PUBLISH on the same channels; a marker object for webhook/live). Oracle: the token sequence delivered to each receiver must equal the order of the causing SETs in appendonly.aof exactly (no loss, no duplicate among 2xx-answered requests, in order); PUBLISH per publisher FIFO; a mid-traffic subscriber's sequence must be a contiguous slice of the log order covering every write called after its acknowledgement and acknowledged before it left. non-trivial = a receiver that got >= 2 messages from >= 2 writers, or any outage; distinct key = (receiver kind, configuration)"
+	ctx.Rule = "one fenced collection with channels c1 (all objects) and c2 (MATCH w0*), a webhook h1 on a scripted local endpoint and 0-2 live fences, all `DETECT inside` over the whole world so that every SET produces exactly one notification carrying the write's unique token; 1-8 concurrent writers, 0-3 PUBLISH publishers, an exact and a pattern subscriber from the start, 0-3 subscribers that subscribe and leave while traffic flows, webhook failure patterns {none, refuse (listener closed 0.3-1.5 s), 5xx x k, refuse then 5xx, hang > 5 s (thorough)}; one connection holding an exact and two pattern subscriptions of the same channel (one frame per subscription); phases end with markers (PUBLISH on the same channels; a marker object for webhook/live). Oracle: the token sequence delivered to each receiver must equal the order of the causing SETs in appendonly.aof exactly (no loss, no duplicate among 2xx-answered requests, in order); PUBLISH per publisher FIFO; a mid-traffic subscriber's sequence must be a contiguous slice of the log order covering every write called after its acknowledgement and acknowledged before it left. non-trivial = a receiver that got >= 2 messages from >= 2 writers, or any outage; distinct key = (receiver kind, configuration)"
 	ctx.Assumptions = []string{"only requests the endpoint answered 2xx count as delivered", "outages are shorter than the 30 s retention", "a mid-traffic subscriber's messages caused by writes acknowledged before it leaves have reached its socket 300 ms later"}
 	bin, err := srv.Build("plain")
 	if err != nil {
@@ -921,6 +921,11 @@ func Run(ctx *core.Ctx) {
 	go func() {
 		defer rwg.Done()
 		retention(ctx, bin)
+	}()
+	rwg.Add(1)
+	go func() {
+		defer rwg.Done()
+		dualSubscription(ctx, bin)
 	}()
 	defer rwg.Wait()
 	for i, c := range cfgs {
